@@ -269,21 +269,8 @@ fn d(s: &str) -> Decimal {
     s.parse().unwrap()
 }
 
-/// Enumerates history + one transaction of 2..3 postings.
-pub fn run(args: &[String]) -> i32 {
-    if args.first().map(|x| x == "--only").unwrap_or(false) {
-        let text = args.get(1).cloned().unwrap_or_default();
-        let got = run_real(&text);
-        let s = match got {
-            Real::Ok(b) => format!("accepted; balances {:?}", b),
-            Real::Err(e) => format!("rejected: {}", e.lines().next().unwrap_or("")),
-            Real::Panic => "PANIC".to_owned(),
-        };
-        println!("{}", serde_json::json!({"input": text, "observed": s}));
-        println!("{}", serde_json::json!({"family": "ledger", "evaluated": 1, "contradictions": 0, "note": "observation only; compare with the recorded contradiction"}));
-        return 0;
-    }
-    let thorough = args.first().map(|x| x == "thorough").unwrap_or(false);
+/// Enumerates history + one transaction of 2..4 postings; with `panic_only` only crashes are contradictions (C06).
+pub fn sweep(thorough: bool, panic_only: bool) -> (u64, Vec<(String, String)>) {
     let values: Vec<Decimal> = if thorough { vec![d("0"), d("1"), d("-1"), d("5"), d("-5"), d("0.5"), d("-2.5")] } else { vec![d("0"), d("1"), d("-1"), d("5"), d("-5")] };
     let comms = ["X", "Y"];
     let mut evaluated = 0u64;
@@ -341,7 +328,7 @@ pub fn run(args: &[String]) -> i32 {
                     let mut txns = h.clone();
                     txns.push(t);
                     evaluated += 1;
-                    if let Some(b) = check(&txns, &[]) {
+                    if let Some(b) = check(&txns, &[]).filter(|b| !panic_only || b.1.contains("panicked")) {
                         if bad.len() < 12 {
                             bad.push(b);
                         }
@@ -369,7 +356,7 @@ pub fn run(args: &[String]) -> i32 {
                                 t.push(Post { account: "D", amount: None, cost: None, assertion: None });
                             }
                             evaluated += 1;
-                            if let Some(b) = check(&[t], &["Y"]) {
+                            if let Some(b) = check(&[t], &["Y"]).filter(|b| !panic_only || b.1.contains("panicked")) {
                                 if bad.len() < 12 {
                                     bad.push(b);
                                 }
@@ -380,6 +367,24 @@ pub fn run(args: &[String]) -> i32 {
             }
         }
     }
+    (evaluated, bad)
+}
+
+pub fn run(args: &[String]) -> i32 {
+    if args.first().map(|x| x == "--only").unwrap_or(false) {
+        let text = args.get(1).cloned().unwrap_or_default();
+        let got = run_real(&text);
+        let s = match got {
+            Real::Ok(b) => format!("accepted; balances {:?}", b),
+            Real::Err(e) => format!("rejected: {}", e.lines().next().unwrap_or("")),
+            Real::Panic => "PANIC".to_owned(),
+        };
+        println!("{}", serde_json::json!({"input": text, "observed": s}));
+        println!("{}", serde_json::json!({"family": "ledger", "evaluated": 1, "contradictions": 0, "note": "observation only; compare with the recorded contradiction"}));
+        return 0;
+    }
+    let thorough = args.first().map(|x| x == "thorough").unwrap_or(false);
+    let (evaluated, bad) = sweep(thorough, false);
     for (s, why) in &bad {
         println!("{}", serde_json::json!({"input": s, "contradiction": why}));
     }
